@@ -707,6 +707,10 @@ func (c *Compiler) writeNode(node, parent *node, recv, v, vsrc string, depth int
 					if mode == modeSet {
 						c.wl("inspector.AssignBuf(", pfx, v, ".", ch.name, ", value, buf)")
 					}
+					if parent != nil && parent.typ == typeMap && !node.ptr && len(vsrc) > 0 {
+						// v is a copy of a map entry: store it back.
+						c.wl(vsrc, " = ", v)
+					}
 					c.wl("return nil")
 				}
 			} else {
@@ -826,7 +830,11 @@ func (c *Compiler) writeNode(node, parent *node, recv, v, vsrc string, depth int
 					c.wl("if ", nv, ", ok := ", c.fmtV(node, v), "[", key, "]; ok {")
 				}
 				c.wl("_ = ", nv)
-				err := c.writeNode(node.mapv, node, recv, nv, "", depth+1, mode)
+				nvsrc := ""
+				if mode == modeSet {
+					nvsrc = c.fmtV(node, v) + "[" + key + "]"
+				}
+				err := c.writeNode(node.mapv, node, recv, nv, nvsrc, depth+1, mode)
 				if err != nil {
 					return err
 				}
@@ -848,7 +856,11 @@ func (c *Compiler) writeNode(node, parent *node, recv, v, vsrc string, depth int
 				c.wl(snippet)
 				c.wl(nv, " := ", c.fmtV(node, v), "[", c.fmtP(node.mapk, "k", depth+1), "]")
 				c.wl("_ = ", nv)
-				err = c.writeNode(node.mapv, node, recv, nv, "", depth+1, mode)
+				nvsrc := ""
+				if mode == modeSet {
+					nvsrc = c.fmtV(node, v) + "[" + c.fmtP(node.mapk, "k", depth+1) + "]"
+				}
+				err = c.writeNode(node.mapv, node, recv, nv, nvsrc, depth+1, mode)
 				if mode == modeSet {
 					c.wl(c.fmtV(node, v), "[", c.fmtP(node.mapk, "k", depth+1), "] = ", nv)
 					c.wl("return nil")
